@@ -389,6 +389,10 @@ class Engine:
                 return ops[0] if ops else ('sym', 'rawptr')
             return ('agg', ak, None, ops)
         if k == 'repeat':
+            import re
+            mt = re.match(r'^\[.*; (\d+)\]$', dest_ty or '')
+            if mt:
+                return T('repeat', self.operand(st, fr, r['op']), C(int(mt.group(1)), 'usize'))
             return T('repeat', self.operand(st, fr, r['op']))
         return ('sym', 'rvalue?%s' % k)
 
@@ -623,6 +627,32 @@ class Engine:
                 fn['resolved'] = {'path': tb.path}
                 fv = ('fn', fn)
                 name = tb.path
+        # 0b. calling a known closure / fn item through the Fn* traits: dispatch to its body
+        if declared in ('std::ops::FnOnce::call_once', 'std::ops::FnMut::call_mut', 'std::ops::Fn::call') and len(args) == 2:
+            f = args[0]
+            if f[0] == 'ref':
+                f = self.load(st, f[1])
+            tb = None
+            if f[0] == 'agg' and isinstance(f[1], str) and f[1].startswith('closure:'):
+                tb = self.facts.body(f[1][len('closure:'):])
+            elif f[0] == 'fn':
+                tb = self.facts.body(mir.callee_name(f[1])) or self.facts.body(f[1]['path'])
+            if tb is not None:
+                tup = args[1]
+                unpacked = list(tup[3]) if tup[0] == 'agg' else [tup]
+                if f[0] == 'agg':
+                    env = args[0] if (tb.local_ty(1).get('k') == 'ref') == (args[0][0] == 'ref') else f
+                    if tb.local_ty(1).get('k') == 'ref' and args[0][0] != 'ref':
+                        h = ('H', 200000 + st.next_heap)
+                        st.next_heap += 1
+                        st.store[(h, ())] = f
+                        env = ('ref', (h, ()))
+                    args = [env] + unpacked
+                else:
+                    args = unpacked
+                fn = FnInfo({'path': tb.path, 'resolved': {'path': tb.path}, 'defkind': 'Closure' if f[0] == 'agg' else 'Fn'})
+                fv = ('fn', fn)
+                name = declared = tb.path
         # 1. summaries
         summ = self.summaries.get(name) or self.summaries.get(declared)
         if summ is None and name.startswith('std::convert::num::<impl std::convert::From<') and name.endswith('>::from'):
@@ -642,6 +672,7 @@ class Engine:
                 and all(f.body is not callee_body for f in st.frames) \
                 and (self.inline_filter is None or self.inline_filter(callee_body)):
             self.inlined.add(callee_body.path)
+            st.effects.append({'kind': 'inline', 'callee': callee_body.path, 'args': list(args), 'site': site, 'tracing': False})
             nf = Frame(callee_body, st.next_fid, 0, dest, target, site)
             st.next_fid += 1
             for i, a in enumerate(args):
